@@ -72,6 +72,20 @@ theorem unlyb_lyb (v : DtVal) (h : WfVal v) : unlyb (lyb v) = .ok v := by
     rw [e3, unlyb_long _ _ _ hl hne hd, ht]
     cases tz <;> rfl
 
+/-- `strtol` of a string that starts with `-` is not positive -/
+theorem strtol_minus (rest : Bytes) : (strtol (45 :: rest)).1 ≤ 0 := by
+  have e : (45 :: rest : Bytes).dropWhile isSpace = 45 :: rest := by
+    simp [List.dropWhile, show isSpace 45 = false by decide]
+  have hn : (strtoCore 10 (45 :: rest)).neg = true := by
+    simp only [strtoCore, e, List.head?_cons]
+    repeat' split
+    all_goals rfl
+  simp only [strtol, hn]
+  split
+  · simp
+  · simp only [↓reduceIte]
+    split <;> omega
+
 /-! ## equality -/
 
 theorem cmpEq_iff (a b : DtVal) : cmpEq a b = true ↔ a = b := by
@@ -106,21 +120,28 @@ theorem sortFrac_zero_iff (f g : Option Bytes) :
     rw [hz.mpr h]; simp
 
 theorem sort_near (a b : DtVal) (h1 : -(2 ^ 31 : Int) < a.time - b.time) (h2 : a.time - b.time < 2 ^ 31) :
-    sort a b = if a.time - b.time ≠ 0 then a.time - b.time else sortFrac a.frac b.frac := by
-  simp only [sort]
+    sortWith false a b = if a.time - b.time ≠ 0 then a.time - b.time else sortFrac a.frac b.frac := by
+  simp only [sortWith]
   by_cases h : a.time - b.time = 0
   · simp [h]
   · simp [h]
     intro hh
     omega
 
-theorem sort_zero_iff (a b : DtVal) : sort a b = 0 ↔ a.time = b.time ∧ sortFrac a.frac b.frac = 0 := by
-  simp only [sort]
+theorem sort_clamped (a b : DtVal) :
+    sortWith true a b = if a.time - b.time ≠ 0 then (if a.time - b.time < 0 then -1 else 1) else sortFrac a.frac b.frac := by
+  simp only [sortWith]
+  by_cases h : a.time - b.time = 0
+  · simp [h]
+  · simp [h]
+
+theorem sort_zero_iff (c : Bool) (a b : DtVal) : sortWith c a b = 0 ↔ a.time = b.time ∧ sortFrac a.frac b.frac = 0 := by
+  simp only [sortWith]
   by_cases h : a.time - b.time = 0
   · have : a.time = b.time := by omega
     simp [this]
   · have hne : a.time ≠ b.time := by omega
     simp only [bne_iff_ne, ne_eq, h, not_false_eq_true, ↓reduceIte, hne, false_and, iff_false]
-    split <;> omega
+    cases c <;> simp only [Bool.false_eq_true, ↓reduceIte] <;> split <;> omega
 
 end LyModel.Val.DateTime
